@@ -130,42 +130,28 @@ mod verif_block_leaves_as {
     fn decode_block(buf: &[u8]) -> Option<AsBlock> {
         match bcder::Mode::Der.decode(buf, |cons| AsBlock::take_opt_from(cons)) { Ok(Some(b)) => Some(b), _ => None }
     }
-    // FINDING (C03, lower bound not above upper bound): fails, e.g. SEQUENCE { 20, 10 } is accepted
-    // as the block AS20-AS10: AsRange::parse_content does not check min <= max.
-    //@harness bl_as_der_lo_le_hi K fn=AsRange::parse_content,AsBlock::take_opt_from
-    verif_harness!{ #[kani::unwind(10)] bl_as_der_lo_le_hi; |a: u8, b: u8| {
-        let buf = [0x30u8, 6, 2, 1, a, 2, 1, b];
+    // FINDING (C03, lower bound not above upper bound): SEQUENCE { 20, b } with b < 20 is accepted as the
+    // block AS20-ASb: AsRange::parse_content does not check min <= max.  (Bounded in the input only: the
+    // first INTEGER is fixed — with both integers symbolic CBMC needs > 30 GB for the two nested bcder reads.)
+    //@harness bl_as_der_lo_le_hi Kb fn=AsRange::parse_content,AsBlock::take_opt_from bound="first INTEGER fixed to 20, second any one-octet INTEGER"
+    verif_harness!{ #[kani::unwind(6)] bl_as_der_lo_le_hi; |b: u8| {
+        let buf = [0x30u8, 6, 2, 1, 20, 2, 1, b];
         if let Some(blk) = decode_block(&buf[..]) {
-            assert!(a < 0x80 && b < 0x80, "one-octet INTEGERs are non-negative");
-            assert!(val(blk.min()) == a as u32 && val(blk.max()) == b as u32, "decoded bounds are the encoded numbers");
+            assert!(b < 0x80, "one-octet INTEGERs are non-negative");
+            assert!(val(blk.min()) == 20 && val(blk.max()) == b as u32, "decoded bounds are the encoded numbers");
             assert!(blk.min() <= blk.max(), "a decoded AS range has min <= max");
         }
     }}
     // FINDING (same defect as bl_asn_count_total, reached from DER): SEQUENCE { 0, 4294967295 } decodes to a
     // well-formed block whose asn_count() overflows.
-    //@harness bl_as_der_count K fn=AsRange::parse_content,AsBlock::asn_count
-    verif_harness!{ #[kani::unwind(10)] bl_as_der_count; |a: u8, b: [u8; 4]| {
-        let buf = [0x30u8, 10, 2, 1, a, 2, 5, 0, b[0], b[1], b[2], b[3]];
+    //@harness bl_as_der_count Kb fn=AsRange::parse_content,AsBlock::asn_count bound="first INTEGER fixed to 0, second any five-octet INTEGER"
+    verif_harness!{ #[kani::unwind(8)] bl_as_der_count; |b: [u8; 4]| {
+        let buf = [0x30u8, 10, 2, 1, 0, 2, 5, 0, b[0], b[1], b[2], b[3]];
         if let Some(blk) = decode_block(&buf[..]) {
-            let (lo, hi) = (a as u32, u32::from_be_bytes(b));
-            assert!(val(blk.min()) == lo && val(blk.max()) == hi && lo <= hi, "decoded bounds (here always min <= max)");
+            let hi = u32::from_be_bytes(b);
+            assert!(val(blk.min()) == 0 && val(blk.max()) == hi, "decoded bounds (here always min <= max)");
             let n = blk.asn_count();
-            assert!(n as u64 == card(lo, hi) || (card(lo, hi) > u32::MAX as u64 && n == u32::MAX), "count of a decoded block");
-        }
-    }}
-    //@harness bl_x1 K fn=x
-    verif_harness!{ #[kani::unwind(6)] bl_x1; |b: u8| {
-        let buf = [0x30u8, 6, 2, 1, 20, 2, 1, b];
-        let r = bcder::Mode::Der.decode(&buf[..], |cons| cons.take_value_if(Tag::SEQUENCE, AsRange::parse_content));
-        if let Ok(blk) = r {
-            assert!(blk.min() <= blk.max(), "a decoded AS range has min <= max");
-        }
-    }}
-    //@harness bl_x2 K fn=x
-    verif_harness!{ #[kani::unwind(6)] bl_x2; |b: u8| {
-        let buf = [0x30u8, 6, 2, 1, 20, 2, 1, b];
-        if let Some(blk) = decode_block(&buf[..]) {
-            assert!(blk.min() <= blk.max(), "a decoded AS range has min <= max");
+            assert!(n as u64 == card(0, hi) || (card(0, hi) > u32::MAX as u64 && n == u32::MAX), "count of a decoded block");
         }
     }}
     // FINDING (text form): "3-1" parses to the block AS3-AS1: AsBlock::from_str does not check min <= max.
@@ -338,9 +324,12 @@ mod verif_block_leaves_ip {
 
     // ---------------- lo <= hi at the decoding boundary ------------------------------------
     // IPAddressOrRange ::= CHOICE { addressPrefix BIT STRING, addressRange SEQUENCE { min BIT STRING, max BIT STRING } }
-    // FINDING (C03, lower bound not above upper bound): SEQUENCE { 20/8, 10/8 } is accepted as the range
-    // 20.0.0.0 - 10.255.255.255: AddressRange::parse_content[_with_family] do not check min <= max.
-    //@harness bl_ip_der_lo_le_hi K fn=AddressRange::parse_content,IpBlock::take_opt_from
+    // (The harnesses call AddressRange::parse_content* on the SEQUENCE content directly: every use of the type
+    // Result<Option<IpBlock>, DecodeError<_>> returned by IpBlock::take_opt_from* crashes kani-compiler 0.68
+    // in codegen_get_discriminant.)
+    // FINDING (C03, lower bound not above upper bound): SEQUENCE { 1/8, 0/8 } is accepted as the range
+    // 1.0.0.0 - 0.255.255.255: AddressRange::parse_content[_with_family] do not check min <= max.
+    //@harness bl_ip_der_lo_le_hi K fn=AddressRange::parse_content
     verif_harness!{ #[kani::unwind(18)] bl_ip_der_lo_le_hi; |a: u8, b: u8| {
         let buf = [0x30u8, 8, 3, 2, 0, a, 3, 2, 0, b];
         let r = bcder::Mode::Der.decode(&buf[..], |cons| cons.take_value_if(Tag::SEQUENCE, AddressRange::parse_content));
@@ -350,16 +339,95 @@ mod verif_block_leaves_ip {
             assert!(blk.min() <= blk.max(), "a decoded address range has min <= max");
         }
     }}
-    //@harness bl_ip_der_family_lo_le_hi K fn=AddressRange::parse_content_with_family,IpBlock::take_opt_from_with_family
+    // FINDING: same defect in the family-checking variant.
+    //@harness bl_ip_der_family_lo_le_hi K fn=AddressRange::parse_content_with_family
     verif_harness!{ #[kani::unwind(18)] bl_ip_der_family_lo_le_hi; |a: u8, b: u8, v4: bool| {
         let buf = [0x30u8, 8, 3, 2, 0, a, 3, 2, 0, b];
         let fam = if v4 { AddressFamily::Ipv4 } else { AddressFamily::Ipv6 };
-        let r = bcder::Mode::Der.decode(&buf[..], |cons| IpBlock::take_opt_from_with_family(cons, fam));
-        if let Ok(Some(blk)) = r {
+        let r = bcder::Mode::Der.decode(&buf[..], |cons| cons.take_value_if(Tag::SEQUENCE, |c| AddressRange::parse_content_with_family(c, fam)));
+        if let Ok(blk) = r {
             assert!(val(blk.min()) == (a as u128) << 120, "decoded lower bound");
             assert!(val(blk.max()) == ((b as u128) << 120) | hostmask(8), "decoded upper bound");
             assert!(blk.min() <= blk.max(), "a decoded address range has min <= max");
         }
+    }}
+
+    // ---------------- std facts assumed by the Verus unit range_prefixes --------------------
+    fn is_tz128(x: u128, r: u32) -> bool {
+        r <= 128 && ((x == 0) == (r == 128)) && (r >= 128 || ((x >> r) & 1 == 1 && x & ((1u128 << r) - 1) == 0))
+    }
+    fn is_lz128(x: u128, r: u32) -> bool {
+        r <= 128 && ((x == 0) == (r == 128)) && (r >= 128 || x >> (127 - r) == 1)
+    }
+    fn is_to128(x: u128, r: u32) -> bool {
+        r <= 128 && ((x == u128::MAX) == (r == 128)) && (r >= 128 || ((x >> r) & 1 == 0 && x & ((1u128 << r) - 1) == (1u128 << r) - 1))
+    }
+    //@harness bl_u128_bit_counts K fn=u128::{trailing_zeros,leading_zeros,trailing_ones}
+    verif_harness!{ bl_u128_bit_counts; |x: u128, r: u32| {
+        // the characterisations written as assume_specification in range_prefixes.v.rs hold for the compiled intrinsics ...
+        assert!(is_tz128(x, x.trailing_zeros()), "trailing_zeros satisfies is_tz128");
+        assert!(is_lz128(x, x.leading_zeros()), "leading_zeros satisfies is_lz128");
+        assert!(is_to128(x, x.trailing_ones()), "trailing_ones satisfies is_to128");
+        // ... and determine the result uniquely (they are not weaker than the functions)
+        if is_tz128(x, r) { assert!(r == x.trailing_zeros(), "is_tz128 determines the count"); }
+        if is_lz128(x, r) { assert!(r == x.leading_zeros(), "is_lz128 determines the count"); }
+        if is_to128(x, r) { assert!(r == x.trailing_ones(), "is_to128 determines the count"); }
+    }}
+    //@harness bl_v4_addr_embedding K fn=Addr::from_v4,From<Ipv4Addr>,Addr::to_v4
+    verif_harness!{ bl_v4_addr_embedding; |x: u32, y: u128| {
+        assert!(u32::from(Ipv4Addr::from(x)) == x, "std: Ipv4Addr <-> u32 round trip");
+        assert!(val(Addr::from(Ipv4Addr::from(x))) == (x as u128) << 96, "IPv4 addresses live in the upper 32 bits");
+        assert!(val(Addr::from_v4(Ipv4Addr::from(x))) == (x as u128) << 96, "from_v4");
+        assert!(u32::from(ad(y).to_v4()) == (y >> 96) as u32, "to_v4 reads the upper 32 bits");
+    }}
+
+    // ---------------- bounded cross-check of the decomposition on the compiled code ----------
+    // (the complete proofs are in the Verus unit range_prefixes; these runs exercise the real
+    // `impl Iterator` return value, i.e. what rules R10/R12 abstract from)
+    //@harness bl_v4_prefixes_kb_n4 Kb fn=AddressRange::to_v4_prefixes bound="min and max agree above the low 4 bits (at most 6 prefixes)"
+    verif_harness!{ #[kani::unwind(9)] bl_v4_prefixes_kb_n4; |a: u32, b: u32| {
+        assume(a >> 4 == b >> 4);
+        let r = AddressRange::new(Addr::from(Ipv4Addr::from(a)), Addr::from(Ipv4Addr::from(b)).to_max(32));
+        let mut it = r.to_v4_prefixes();
+        let mut next = a as u64;        // first address not yet covered
+        let mut n = 0;
+        while n < 7 {
+            match it.next() {
+                None => break,
+                Some(p) => {
+                    let (lo, hi) = ((val(p.min()) >> 96) as u64, (val(p.max()) >> 96) as u64);
+                    assert!(wf(&p) && p.addr_len() <= 32, "well-formed IPv4 prefix");
+                    assert!(lo == next && lo <= hi && hi <= b as u64, "prefixes tile [min,max] in ascending order without gap or overlap");
+                    next = hi + 1;
+                }
+            }
+            n += 1;
+        }
+        assert!(n <= 6 && it.next().is_none(), "at most 2*4-2 prefixes");
+        if a <= b { assert!(next == b as u64 + 1, "the union ends at max"); } else { assert!(n == 0, "empty for min > max"); }
+    }}
+    //@harness bl_v6_prefixes_kb_n4 Kb fn=AddressRange::to_v6_prefixes bound="min and max agree above the low 4 bits (at most 6 prefixes)"
+    verif_harness!{ #[kani::unwind(9)] bl_v6_prefixes_kb_n4; |a: u128, b: u128| {
+        assume(a >> 4 == b >> 4);
+        let r = AddressRange::new(ad(a), ad(b));
+        let mut it = r.to_v6_prefixes();
+        let mut next = a;               // first address not yet covered
+        let mut done = false;           // the last prefix ended at u128::MAX
+        let mut n = 0;
+        while n < 7 {
+            match it.next() {
+                None => break,
+                Some(p) => {
+                    let (lo, hi) = (val(p.min()), val(p.max()));
+                    assert!(wf(&p), "well-formed prefix");
+                    assert!(!done && lo == next && lo <= hi && hi <= b, "prefixes tile [min,max] in ascending order without gap or overlap");
+                    if hi == u128::MAX { done = true; } else { next = hi + 1; }
+                }
+            }
+            n += 1;
+        }
+        assert!(n <= 6 && it.next().is_none(), "at most 2*4-2 prefixes");
+        if a <= b { assert!(if b == u128::MAX { done } else { !done && next == b + 1 }, "the union ends at max"); } else { assert!(n == 0, "empty for min > max"); }
     }}
 }
 //@end
